@@ -80,16 +80,21 @@ def evaluate(ctx, results, verdicts, spec_by_id):
                 divs[f["signature"]] += 1
                 if divs[f["signature"]] == 1:
                     ctx.note(f"divergence {f['signature']}: {f.get('message', '')} history tail {h[-2:]}")
-        if fl.get("pre_ok") is False:
-            continue
         ser_spec = spec.get("ser")
         why = spec.get("why", "")
+        if fl.get("pre_ok") is False:
+            # the code left the specification's path earlier in the history (reported as a divergence above, and by the
+            # C01/C06 checks if it is a defect of the containers); the state actually reached is judged all the same,
+            # by TLC on what was observed - Serializable is then TLC's verdict on the observed original
+            st["off-model-states-judged"] += 1
+            ser_spec, why = None, "off-model-state"
+            detail0["off_model_state"] = True
         vm = verdicts.get((k, "model", 0))
         edits = [c[0][0] for c in h[-2:]]
         ctx.case(key=(tuple(edits), why, fl.get("ser1"), fl.get("deser"), None if vm is None else vm["iso"]), nontrivial=True,
                  sample={"history_tail": h[-3:], "serializable": ser_spec, "why": why, "to_proto": fl.get("ser1"), "from_proto": fl.get("deser"),
                          "iso": None if vm is None else vm["iso"]})
-        st["serializable" if ser_spec else "not-serializable:" + why] += 1
+        st["serializable" if ser_spec else ("not-serializable:" + why if ser_spec is not None else why)] += 1
         if fl.get("devcfg_written_below_ir11"):
             st["observation:device-configurations-of-subgraph-nodes-written-below-ir11"] += 1
         if ser_spec and fl.get("ser1") != "ok":
